@@ -30,6 +30,7 @@ def model_check(ctx):
            label="every Lorentz / Drude / critical-point pole of the rational grid (+ Lorentz+Drude pairs), padded to 3 slots, every test frequency")
     ctx.mc_negative("Disp", "MC_Disp_neg.cfg", workers=2)    # c2 with the wrong sign
     ctx.mc_negative("Disp", "MC_Disp_neg2.cfg", workers=2)   # gamma*dt/2 -> gamma*dt in D
+    ctx.mc_negative("Disp", "MC_Disp_neg4.cfg", workers=2)   # acceptance guard: axis_active with `and` instead of `or`
     if not ctx.quick:
         ctx.mc_negative("Disp", "MC_Disp_neg3.cfg", workers=2)  # c3 = (a + b)/D
     ctx.assumptions += [
